@@ -142,6 +142,25 @@ def parse(text):
             if mm:
                 bounds[int(mm.group(1)) - 1] = (float('-inf'), float('inf'))
                 continue
+            # one-sided lines change one side only; the other side keeps its value (the
+            # format's default lower bound 0 unless set before)
+            mm = re.match(r'^x(\d+)\s*(<=|>=|=<|=>|=)\s*(\S+)$', raw)
+            m2 = re.match(r'^(\S+)\s*(<=|>=|=<|=>|=)\s*x(\d+)$', raw)
+            if mm or m2:
+                if mm:
+                    j, op, val = int(mm.group(1)) - 1, mm.group(2), _float(mm.group(3))
+                else:
+                    j, op, val = int(m2.group(3)) - 1, m2.group(2), _float(m2.group(1))
+                    op = {'<=': '>=', '=<': '>=', '>=': '<=', '=>': '<=', '=': '='}[op]
+                lo, hi = bounds.get(j, (0.0, float('inf')))
+                if op in ('<=', '=<'):
+                    hi = val
+                elif op in ('>=', '=>'):
+                    lo = val
+                else:
+                    lo = hi = val
+                bounds[j] = (lo, hi)
+                continue
             raise LPFormatError('unsupported bound line: ' + raw)
         elif section in ('general', 'binary'):
             for tok in raw.split():
